@@ -42,7 +42,10 @@ def dump_variant(path, v):
             secs.append("census=" + D.err(e))
             return "ok " + D.SEP.join(secs)
         for r in db.master_schema.master_schema_b_tree_root_page_numbers:
-            secs.append(f"tree{r}=" + D.show_tree(db.get_b_tree_root_page(r), db))
+            try:
+                secs.append(f"tree{r}=" + D.show_tree(db.get_b_tree_root_page(r), db))
+            except Exception as e:  # noqa
+                secs.append(f"tree{r}=" + D.err(e))
         return "ok " + D.SEP.join(secs)
     ident = None
     fh = None
